@@ -196,6 +196,41 @@ impl MemS {
         );
         m
     }
+    /// Contexts indexed by aliasing class (frag_id % slots), whatever position the implementation keeps
+    /// them at. None in the outer Option if two contexts of one class are stored (contract violation).
+    pub fn by_class(&self) -> Option<Vec<Option<(CtxS, Vec<u8>)>>> {
+        let mut v: Vec<Option<(CtxS, Vec<u8>)>> = vec![None; self.slots.max(1)];
+        for f in self.frags.iter().flatten() {
+            let c = f.0.frag_id as usize % self.slots.max(1);
+            if v[c].is_some() {
+                return None;
+            }
+            v[c] = Some(f.clone());
+        }
+        Some(v)
+    }
+    /// the context stored for the aliasing class of `id`, if any
+    pub fn ctx_in_class(&self, id: u8) -> Option<&(CtxS, Vec<u8>)> {
+        let n = self.slots.max(1);
+        self.frags.iter().flatten().find(|f| f.0.frag_id as usize % n == id as usize % n)
+    }
+    /// replace (or insert) the context of the class of `ctx.frag_id`
+    pub fn set_ctx(&mut self, ctx: CtxS, buf: Vec<u8>) {
+        let n = self.slots.max(1);
+        let class = ctx.frag_id as usize % n;
+        if let Some(i) = self.frags.iter().position(|f| f.as_ref().map(|f| f.0.frag_id as usize % n == class).unwrap_or(false)) {
+            self.frags[i] = Some((ctx, buf));
+        } else {
+            // position of the bundled implementation; a restore hook of another layout re-places it
+            self.frags[class] = Some((ctx, buf));
+        }
+    }
+    /// remove the context of the class of `id`
+    pub fn take_class(&mut self, id: u8) -> Option<(CtxS, Vec<u8>)> {
+        let n = self.slots.max(1);
+        let i = self.frags.iter().position(|f| f.as_ref().map(|f| f.0.frag_id as usize % n == id as usize % n).unwrap_or(false))?;
+        self.frags[i].take()
+    }
     /// all buffer lengths held by the memory (free list then contexts)
     pub fn buffer_lens(&self) -> Vec<usize> {
         let mut v: Vec<usize> = self.free.iter().map(|b| b.len()).collect();
